@@ -415,7 +415,8 @@ def c14_frame(rp):
     m = mk_model(name, rp["params"], limit_sigma=bool(rp.get("a", False)))
     teams = mk_game(name, rp["game"])
     before = _state(m)
-    ids = [[(p.id, p.name, p.mu, p.sigma, sorted(p.__dict__)) for p in t] for t in teams]
+    other = lambda p: sorted((k, repr(v)) for k, v in p.__dict__.items() if k not in ("mu", "sigma"))
+    ids = [[(p.id, p.name, p.mu, p.sigma, other(p)) for p in t] for t in teams]
     try:
         _call_op(m, rp["op"], teams, _ranks(rp), _kw(rp))
     except Exception as e:  # noqa: BLE001
@@ -424,11 +425,11 @@ def c14_frame(rp):
     if before != after:
         diff = {k: (before.get(k), after.get(k)) for k in set(before) | set(after) if before.get(k) != after.get(k)}
         return True, f"{name}.{rp['op']}({_kw(rp)}) changed model attributes: {diff}"
-    ids2 = [[(p.id, p.name, p.mu, p.sigma, sorted(p.__dict__)) for p in t] for t in teams]
+    ids2 = [[(p.id, p.name, p.mu, p.sigma, other(p)) for p in t] for t in teams]
     for t1, t2 in zip(ids, ids2):
         for a, b in zip(t1, t2):
             if a[0] != b[0] or a[1] != b[1] or a[4] != b[4]:
-                return True, f"{name}.{rp['op']} changed a rating's id/name/attribute set: {a} -> {b}"
+                return True, f"{name}.{rp['op']} wrote an attribute of a rating other than mu / sigma: {a[4]} -> {b[4]}"
             if rp["op"] != "rate" and (a[2] != b[2] or a[3] != b[3]):
                 return True, f"{name}.{rp['op']} changed a rating's mu/sigma: {a} -> {b}"
     return False, "model and rating identity attributes unchanged"
@@ -2208,3 +2209,35 @@ def c13_long_teams(rp):
     if verdict is not None or after != before:
         return True, f"{rp['model']}.{rp['op']}({n} teams, {what} at position {j}) " + (verdict or "was rejected, but something had already been modified")
     return False, "rejected without side effect"
+
+
+@checker("c14_objhist")
+def c14_objhist(rp):
+    """rating objects that were rated before (with other options) against fresh objects with the same values"""
+    name = rp["model"]
+    mA, mB = mk_model(name, rp["params"]), mk_model(name, rp["params"])
+    used = mk_game(name, rp["game"])
+    mA.rate(used, ranks=_ranks(rp), **(rp.get("first") or {}))
+    R_ = rating_cls(name)
+    fresh = [[R_(p.mu, p.sigma) for p in t] for t in used]
+    kw = (rp.get("second") or {}) if rp["op"] == "rate" else {}
+    a = _call_op(mA, rp["op"], used, _ranks(rp), kw)
+    b = _call_op(mB, rp["op"], fresh, _ranks(rp), kw)
+    return a != b, f"{name}.{rp['op']}({kw}) on objects rated before with {rp.get('first') or 'no options'}: {str(a)[:90]} ; on fresh objects with the same values: {str(b)[:90]}"
+
+
+@searcher("c14_objhist")
+def c14_objhist_search(rp, seed):
+    rnd = random.Random(seed)
+    sizes = [len(x) for x in rp["game"]]
+    for k in range(200):
+        # established players (small sigma: tau dominates the update, sigma would rise) against newcomers
+        gm = [[[enc(rnd.uniform(15, 35)), enc(rnd.choice([0.8, 1.5, 3.0, 25 / 3]))] for _ in range(n)] for n in sizes]
+        r2 = dict(rp, game=gm, params=_std_params(tau=rnd.choice([25 / 300, 0.5, 1.0])))
+        try:
+            bad, msg = c14_objhist(r2)
+        except Exception:  # noqa: BLE001
+            continue
+        if bad:
+            return r2, msg
+    return None
